@@ -50,6 +50,27 @@ class Node:
                                  'export': pobj.export, 'state': cache_state(pobj)})
                 mobj.addCallback(pname, cb)
 
+    def add_flaky_callbacks(self, plan):
+        """plan: {'<module>.<param>': {'exc': <name of an exception class>, 'every': n}} - a parameter callback of the
+        application (an update_<param> hook, an automatic save, ...) which fails at every n-th call.  Registered after
+        the callbacks of watch_cache, so the recorded cache history is complete whatever frappy does with the failure"""
+        sim = self.sim
+        excs = {'OSError': OSError, 'KeyError': KeyError, 'ValueError': ValueError, 'RuntimeError': RuntimeError,
+                'ZeroDivisionError': ZeroDivisionError}
+        for key, f in sorted(plan.items()):
+            mname, pname = key.split('.')
+            mobj = self.secnode.modules.get(mname)
+            if mobj is None or pname not in mobj.parameters:
+                continue
+            count = [0]
+
+            def flaky(*value_err, f=f, count=count, key=key):
+                count[0] += 1
+                if count[0] % f['every'] == 0 and not sim.finished:
+                    sim.count('fault.parameter-callback-raised')
+                    raise excs[f['exc']](f'callback of {key} failed')
+            mobj.addCallback(pname, flaky)
+
     def module(self, name):
         return self.secnode.modules[name]
 
